@@ -15,7 +15,11 @@ def norm_key(eng, desc):
         elif d[0] == "sym":
             out.append(("arg", d[1]))
         elif d[0] == "arr":
-            out.append(("arg", d[1]))
+            if isinstance(d[1], str) and d[1].startswith(("h[", "arr$")):
+                # a local array whose content is whatever an earlier round (or an earlier copy) left in it: not an argument
+                out.append(("?", "a local array carried over (%s)" % d[1][:40]))
+            else:
+                out.append(("arg", d[1]))
         elif d[0] == "vec":
             out.append(("block", d[1], d[3], d[4]))                # buffer cell, start, len
         else:
